@@ -28,7 +28,7 @@ open Z.PlaceV2 (replaceFirst swapLeader)
 inductive Outcome (β : Type) where
   | ok (v : β)
   | refused          -- `return nil, ErrNodeUnavailable`
-  | panicEmpty       -- `nil.(loadItem)`: treemap.Min() on an empty candidate set (§9-F5)
+  | panicEmpty       -- `nil.(loadItem)`: treemap.Min() on an empty candidate set (§9-F5; proved unreachable: `fillV2_ne_panicEmpty`)
   | panicIndex       -- `partitionNodes[pid]` with pid ≥ partitionNum (old layout with more partitions)
 deriving Repr, DecidableEq
 
@@ -156,11 +156,14 @@ structure V2St (α : Type) where
   items : List (Item α)
   rows : List (List α)
 
-/-- `for pid := 0; pid < partitionNum; pid++`: `k` partitions left -/
+/-- `for pid := 0; pid < partitionNum; pid++`: `k` partitions left.
+    `if len(oldlist) > replica { oldlist = oldlist[:replica] }`: only the first `replica` old names can be
+    reused, and only they are excluded as replacements; old extra members (an ISR longer than the
+    replication factor, mid-migration) stay candidates — the repair of §9-F5 -/
 def fillAll (replica : Nat) (old : List (List α)) : Nat → Nat → List (Item α) → List (List α) → Outcome (V2St α)
   | 0, _, items, rows => .ok ⟨items, rows⟩
   | k + 1, pid, items, rows =>
-    let ol := old.getD pid []
+    let ol := (old.getD pid []).take replica
     match fillRow pid ol replica 0 items [] ol with
     | .ok (items', row) => fillAll replica old k (pid + 1) items' (rows ++ [row])
     | .refused => .refused
